@@ -379,6 +379,13 @@ def run_C04(ctx):
         cases.append("TRACE 100000 1073741824 %d 1073741824 1 64 | A 1 0 x61 ; F 1 ; w 1 ; burst %d %d ; wi ; A 1 %d x62 ; F 1 ; wi ; G ; snap"
                      % (recs, n, m, m + 1))
         ctx.count("channel_full_bursts")
+    # a batch of 10.5 MiB: seven flushes of 1.5 MiB each pile up while the worker is held
+    for j in range(ctx.scale(1, 2)):
+        items = ["A 1 0 x61", "F 1", "w 1"]
+        for i in range(1, 8):
+            items += ["A 1 %d %s" % (i, gen.hx(bytes((k * 7 + i + j) & 0xFF for k in range(1536 * 1024)))), "F 1"]
+        cases.append("TRACE 100000 1073741824 100000 1073741824 1 64 | " + " ; ".join(items + ["wi", "G"]))
+        ctx.count("multi_megabyte_batches")
     cases = p_seq.corpus("C04") + cases
     ff = [("fault " not in c) for c in cases]
     logs, rep = trace_check(ctx, "c04", cases)
@@ -932,6 +939,16 @@ def run_C07(ctx):
         # last: three reader threads against a thread that keeps draining the cache
         out.append("RR %d" % rnd.choice([20, 60]))
         cases.append(head + "| " + " ; ".join(out))
+    # entries of 130-300 KB in closed, flushed chunks under a tiny cache: read from disk by three
+    # threads at once while a fourth keeps draining the cache
+    for j in range(ctx.scale(3, 12)):
+        cfg = "%d %d %d 1073741824 1 %d" % (rnd.choice([0, 1]), rnd.choice([0, 10]), rnd.choice([2, 3]), rnd.choice([0, 7, 64, 67108864]))
+        ops = []
+        for i in range(rnd.randint(3, 5)):
+            size = rnd.choice([135000, 200000, 300000]) if i % 2 == 0 else rnd.choice([0, 5, 900])
+            ops.append("A 1 %d %s" % (i, gen.hx(bytes((k * 11 + i + j) & 0xFF for k in range(size)))))
+        cases.append("SEQ %s | %s" % (cfg, " ; ".join(gen.sync_ops(ops) + ["F 1", "I", "E", "G", "R 0 100000", "RR %d" % rnd.choice([30, 80])])))
+        ctx.count("large_entry_reader_stress")
     impl, model = p_seq.seq_run(ctx, cases)
     spec = p_seq.spec_lines(cases, ctx.wd)
     bad = 0
